@@ -272,6 +272,101 @@ theorem routes_unreachable_not_connected (slots : List Slot) (env : Nat → Env)
   · intro r hr' ho
     exact hun r.idx r.isLocal r.client (mem_slotRoutes.mp (mem_order.mp hr')) ho
 
+/-! ### no route recorded (absent and/or failed lookups only) -/
+
+theorem slotRoutes_nil {slots : List Slot} (h : ∀ s ∈ slots, isRoute s = false) : slotRoutes slots = [] := by
+  apply List.eq_nil_iff_forall_not_mem.mpr
+  intro r hr
+  have hs := mem_slotRoutes.mp hr
+  have hm := List.mem_of_getElem? hs
+  have := h _ hm
+  simp [isRoute] at this
+
+/-- what the loader hands to `DialClient` when no lookup returned a route: not-found (all absent),
+lookup-failed (all failed), or — the mixed case — an EMPTY route list, never a non-empty one -/
+theorem lookup_no_route (slots : List Slot) (h : ∀ s ∈ slots, isRoute s = false) :
+    lookup slots = .notFound ∨ lookup slots = .failed ∨ lookup slots = .routes [] := by
+  unfold lookup
+  split
+  · exact Or.inl rfl
+  · split
+    · exact Or.inr (Or.inl rfl)
+    · right; right; rw [slotRoutes_nil h]; rfl
+
+/-- **no routes ⇒ never "has routes"**: when no lookup returned a route for H — whatever mix of absent,
+failed and undecodable lookups — nothing is dialled and the outcome is not-found or lookup-failed;
+in particular never not-connected ("H has routes but no client reachable") and never a connection. -/
+theorem no_route_never_connected (slots : List Slot) (env : Nat → Env)
+    (h : ∀ s ∈ slots, isRoute s = false) :
+    ((dialClient slots env).outcome = .notFound ∨ (dialClient slots env).outcome = .lookupFailed)
+      ∧ (dialClient slots env).tried = [] := by
+  unfold dialClient
+  rcases lookup_no_route slots h with hl | hl | hl <;> simp [hl, loop]
+
+theorem lookup_failed_iff_slots (slots : List Slot) :
+    lookup slots = .failed ↔ slots ≠ [] ∧ ∀ s ∈ slots, isErrSlot s = true := by
+  unfold lookup
+  by_cases h1 : slots.length = slots.countP (· == .empty)
+  · rw [if_pos h1]
+    simp only [reduceCtorEq, false_iff, not_and]
+    intro hne' hall
+    cases slots with
+    | nil => exact hne' rfl
+    | cons a as =>
+      have ha := (List.countP_eq_length.mp h1.symm) a (List.mem_cons_self ..)
+      have hb := hall a (List.mem_cons_self ..)
+      cases a <;> simp_all [isErrSlot]
+  · rw [if_neg h1]
+    by_cases h2 : slots.length = slots.countP isErrSlot
+    · rw [if_pos h2]
+      simp only [true_iff]
+      refine ⟨?_, fun s hs => (List.countP_eq_length.mp h2.symm) s hs⟩
+      rintro rfl; simp at h1
+    · rw [if_neg h2]
+      simp only [reduceCtorEq, false_iff, not_and]
+      intro _ hall
+      exact h2 (List.countP_eq_length.mpr hall).symm
+
+/-- **lookup-failed** is reported exactly when there are lookups and every one of them failed -/
+theorem lookup_failed_iff (slots : List Slot) (env : Nat → Env) :
+    (dialClient slots env).outcome = .lookupFailed ↔ slots ≠ [] ∧ ∀ s ∈ slots, isErrSlot s = true := by
+  have hne : ∀ rs nr, (loop env rs.length rs nr).outcome ≠ .lookupFailed := by
+    intro rs nr hc
+    by_cases hs : ∃ r ∈ rs, ok env r
+    · obtain ⟨k, hk⟩ := loop_some_ok (env := env) (t := rs.length) (nr := nr) hs
+      rw [hk] at hc; cases hc
+    · have hall : ∀ r ∈ rs, ¬ ok env r := fun r hr ho => hs ⟨r, hr, ho⟩
+      rw [(loop_fail (t := rs.length) (nr := nr) hall).1] at hc
+      split at hc <;> cases hc
+  rw [← lookup_failed_iff_slots]
+  unfold dialClient
+  cases hl : lookup slots with
+  | notFound => simp
+  | failed => simp
+  | routes rs => simpa using hne rs false
+
+/-- **partial lookup failure, no route ⇒ not-found**: no lookup returned a route and at least one
+lookup did not fail (it found the key absent) — some other lookups may have failed — ⇒ not-found.
+Together with `no_routes_not_found` (all absent) this is "not-found when H has no routes" under lookup errors. -/
+theorem partial_lookup_failure_not_found (slots : List Slot) (env : Nat → Env)
+    (h : ∀ s ∈ slots, isRoute s = false) (he : ∃ s ∈ slots, s = .empty) :
+    (dialClient slots env).outcome = .notFound := by
+  rcases (no_route_never_connected slots env h).1 with hn | hf
+  · exact hn
+  · obtain ⟨s, hs, rfl⟩ := he
+    have := ((lookup_failed_iff slots env).mp hf).2 _ hs
+    simp [isErrSlot] at this
+
+/-- converse direction for not-connected: it is only ever reported for a hostname with a recorded route -/
+theorem not_connected_has_route (slots : List Slot) (env : Nat → Env)
+    (h : (dialClient slots env).outcome = .notConnected) : ∃ (i : Nat) (l : Bool) (c : Nat), slots[i]? = some (Slot.route l c) := by
+  obtain ⟨rs, hl, hne, -⟩ := (not_connected_iff slots env).mp h
+  cases rs with
+  | nil => exact absurd rfl hne
+  | cons r rs' =>
+    have hm : r ∈ slotRoutes slots := by rw [← mem_order, ← lookup_routes hl]; simp
+    exact ⟨r.idx, r.isLocal, r.client, mem_slotRoutes.mp hm⟩
+
 /-! ### status frame / remote side -/
 
 /-- **wrong destination rejected**: a proxy stream whose route names another tunnel node (or carries no
@@ -314,6 +409,12 @@ example : dialClient [.route false 11, .route true 22, .route false 33] envEx = 
 example : (dialClient [.route false 11, .route true 22, .empty] envEx).outcome = .notConnected := by decide
 example : (dialClient [.empty, .lookupErr, .empty] envEx).outcome = .notFound := by decide
 example : (dialClient [.undecodable, .lookupErr, .lookupErr] envEx).outcome = .lookupFailed := by decide
+-- partial lookup failure without any route (hypotheses of partial_lookup_failure_not_found / no_route_never_connected hold)
+example : (∀ s ∈ [Slot.lookupErr, .empty, .undecodable], isRoute s = false) ∧ (∃ s ∈ [Slot.lookupErr, .empty, .undecodable], s = .empty)
+    ∧ lookup [.lookupErr, .empty, .undecodable] = .routes []
+    ∧ dialClient [.lookupErr, .empty, .undecodable] envEx = ⟨.notFound, [], []⟩ := by decide
+example : (dialClient [.route false 11, .route true 22, .lookupErr] envEx).outcome = .notConnected
+    ∧ ∃ (i : Nat) (l : Bool) (c : Nat), [Slot.route false 11, .route true 22, .lookupErr][i]? = some (Slot.route l c) := ⟨by decide, 0, false, 11, rfl⟩
 example : order [⟨0, false, 1⟩, ⟨1, true, 2⟩, ⟨2, true, 3⟩] = [⟨2, true, 3⟩, ⟨1, true, 2⟩, ⟨0, false, 1⟩] := by decide
 example : handleProxy (.route true 5) .conn = ⟨0, some 5, true⟩ ∧ handleProxy (.route false 5) .conn = ⟨1, none, false⟩ := by decide
 
